@@ -344,8 +344,8 @@ CHECKS = {"C01": check_c01, "C02": check_c02, "C03": check_c03, "C04": check_c04
 STRATS = {"C01": c01_case, "C02": c02_case, "C03": c03_case, "C04": c04_case}
 EXAMPLES = {
     "C01": {"quick": (1500, 800), "thorough": (12000, 5000)},
-    "C02": {"quick": (500, 300), "thorough": (1500, 1500)},
-    "C03": {"quick": (1200, 600), "thorough": (10000, 4000)},
+    "C02": {"quick": (1000, 500), "thorough": (3000, 2500)},
+    "C03": {"quick": (2000, 800), "thorough": (16000, 6000)},
     "C04": {"quick": (1500, 0), "thorough": (15000, 0)},
 }
 
